@@ -613,4 +613,4 @@ pub fn run(rep: &Report) {
     rep.floor("print commands judged at the prompt", rep.counter("print commands judged (prompt)"), 200);
 }
 
-pub const RULE: &str = "generated programs load random data into 1-3 segments (incl. the top of the 1 MiB space), set SS:SP, all nine flags (via popf), ES, DS, optionally CS and the eight general registers to boundary-biased values, then issue print commands in source and, after int 3, at the prompt: reg, flags, mem a->b / a:n / :n with lengths 1,2,..,15,16,17,..,1000+, ranges ending at 0xFFFFF, backwards ranges, DS-relative ranges with DS up to 0xFFFF that fit / just do not fit, constants in decimal/0x/0X/0b (source) and beyond 2^20, upper-case keywords, garbage at the prompt. Oracle: stdout between consecutive hook records is parsed back (each of the 12 register names exactly once, followed by exactly four upper-case hex digits, each of the 9 flag names followed by 0/1 -- separators and layout are not prescribed -- rows of two-digit upper-case hex, 16 per row except the last, count = range length) and compared with the registers of the hook record and the memory dump of the halting record (memory digest is checked to be constant from the first print on); a backwards or memory-leaving range must yield a non-dump report; the hook records before and after every print / prompt session must be identical. Accept-sets: constants >= 2^20 may be read modulo 2^20 or reported; non-decimal constants at the prompt may be refused. Distinct = (source|prompt, command class, length class, radix class). Console reads (INT 21h AH=1) before prompt sessions; prompt commands padded beyond 4 KiB / 8 KiB / 64 KiB with blanks or leading zeros.";
+pub const RULE: &str = "generated programs load random data into 1-3 segments (incl. the top of the 1 MiB space), set SS:SP, all nine flags (via popf), ES, DS, optionally CS and the eight general registers to boundary-biased values, then issue print commands in source and, after int 3, at the prompt: reg, flags, mem a->b / a:n / :n with lengths 1,2,..,15,16,17,..,1000+, ranges ending at 0xFFFFF, backwards ranges, DS-relative ranges with DS up to 0xFFFF that fit / just do not fit, constants in decimal/0x/0X/0b (source) and beyond 2^20, upper-case keywords, garbage at the prompt. Oracle: stdout between consecutive hook records is parsed back (each of the 12 register names exactly once, followed by exactly four upper-case hex digits, each of the 9 flag names followed by 0/1 -- separators and layout are not prescribed -- rows of two-digit upper-case hex, 16 per row except the last, count = range length) and compared with the registers of the hook record and the memory dump of the halting record (memory digest is checked to be constant from the first print on); a backwards or memory-leaving range must yield a non-dump report; the hook records before and after every print / prompt session must be identical. Accept-sets: constants >= 2^20 may be read modulo 2^20 or reported; non-decimal constants at the prompt may be refused. Distinct = (source|prompt, command class, length class, radix class). Console reads (INT 21h AH=1) before prompt sessions; prompt commands padded beyond 4 KiB / 8 KiB / 64 KiB with blanks or leading zeros. Garbage lines at prompts include non-ASCII (valid UTF-8) ones.";
